@@ -618,7 +618,12 @@ pub fn gen_case(rng: &mut Rng, tier: Tier, for_sweep: bool) -> Case13 {
         if let Some(at) = source.rfind(pat) {
             let start = at + pat.len();
             let end = source[start..].find('\n').map(|n| start + n).unwrap_or(source.len());
-            let url = source[start..end].to_string();
+            let mut url = source[start..end].to_string();
+            // now and then nothing (or only blanks) follows the `=`
+            if rng.chance(1, 6) {
+                url = (*rng.pick(&["", " ", "\t ", "  "])).to_string();
+                ref_kind.push_str("+blank");
+            }
             if !url.contains("*/") {
                 let block = match rng.below(6) {
                     0 => format!("/*# sourceMappingURL={}*/", url),
